@@ -1603,3 +1603,106 @@ func ruleNoAliasAfterTruncate(r *Run, id string, pkgs ...string) {
 		r.Check("in-place truncations", true, "", "", "no slice field is truncated in place in these packages")
 	}
 }
+
+// ruleNoTruncatedZeroTest: "is this duration/size unset?" must be asked of the value itself. A test of a
+// float-to-integer conversion against zero is true for every value below one unit (int64(d.Seconds()) == 0 for any
+// d < 1s), so a configured sub-unit value is silently replaced by the default.
+func ruleNoTruncatedZeroTest(r *Run, id string, pkgs ...string) {
+	r.Begin(id, "unset tests are exact: in "+strings.Join(pkgs, ", ")+" no comparison with the constant 0 is applied to a float-to-integer conversion (the comparison would also hold for every configured value below one unit, which is then replaced by a default)", 1)
+	p := r.P
+	n, bad := 0, 0
+	for _, fn := range p.Funcs {
+		okPkg := false
+		for _, pk := range pkgs {
+			if fnPkgPath(fn) == modPath+pk {
+				okPkg = true
+			}
+		}
+		if !okPkg || fn.Blocks == nil {
+			continue
+		}
+		k := 0
+		allInstrs(fn, func(ins ssa.Instruction) {
+			bo, ok := ins.(*ssa.BinOp)
+			if !ok || (bo.Op != token.EQL && bo.Op != token.NEQ) {
+				return
+			}
+			var other ssa.Value
+			if v, isK := constInt(bo.Y); isK && v == 0 {
+				other = bo.X
+			} else if v, isK := constInt(bo.X); isK && v == 0 {
+				other = bo.Y
+			}
+			if other == nil {
+				return
+			}
+			n++
+			cv, isConv := other.(*ssa.Convert)
+			if !isConv {
+				return
+			}
+			from, ok1 := cv.X.Type().Underlying().(*types.Basic)
+			to, ok2 := cv.Type().Underlying().(*types.Basic)
+			if ok1 && ok2 && from.Info()&types.IsFloat != 0 && to.Info()&types.IsInteger != 0 {
+				k++
+				bad++
+				name := fnName(fn)
+				r.Check(fmt.Sprintf("%s truncated zero test#%d", name, k), false, p.pos(bo.Pos()), name, "a float value is truncated to an integer before it is compared with 0: every value below one unit counts as unset")
+			}
+		})
+	}
+	r.Stat("zero_tests", n)
+	if bad == 0 {
+		r.Check("zero tests", true, "", "", fmt.Sprintf("%d comparisons with 0, none on a truncated float", n))
+	}
+}
+
+// ruleWhoMayReceive: a channel field with a designated consumer. Receiving from it anywhere else steals values from
+// that consumer (and hands the thief a value that was not meant for it).
+func ruleWhoMayReceive(r *Run, id string, fk string, allowed ...string) {
+	r.Begin(id, "only the designated consumer receives from "+fk+": every receive from that channel field lies in "+strings.Join(allowed, " or "), 1)
+	p := r.P
+	n := 0
+	for _, fn := range p.Funcs {
+		if fn.Blocks == nil {
+			continue
+		}
+		k := 0
+		check := func(ch ssa.Value, at ssa.Instruction) {
+			if !hasLeaf(p.Leaves(ch, provOpts{}), "field:"+fk) {
+				return
+			}
+			n++
+			k++
+			name := fnName(topFunc(fn))
+			ok := false
+			for _, a := range allowed {
+				if name == a {
+					ok = true
+				}
+			}
+			r.Check(fmt.Sprintf("%s receive#%d from %s", fnName(fn), k, fk), ok, posOf(p, at), fnName(fn), "receive from "+fk+" outside its designated consumer")
+		}
+		allInstrs(fn, func(ins ssa.Instruction) {
+			switch x := ins.(type) {
+			case *ssa.UnOp:
+				if x.Op == token.ARROW {
+					check(x.X, ins)
+				}
+			case *ssa.Select:
+				for _, st := range x.States {
+					if st.Dir == types.RecvOnly {
+						check(st.Chan, ins)
+					}
+				}
+			case *ssa.Range:
+				if _, isCh := x.X.Type().Underlying().(*types.Chan); isCh {
+					check(x.X, ins)
+				}
+			}
+		})
+	}
+	if n == 0 {
+		r.Undecided("receives from "+fk, "none found")
+	}
+}
